@@ -24,7 +24,9 @@ EXPLANATION = (
     "exactly the documented names, and -- with a symbolic array-shape domain analysed once per "
     "dimensionality -- that every scheme returns the C-order flattening of an array whose axes are "
     "(shape[0], shape[1][, shape[2]]) (or a uniform vector), i.e. that tensor weights follow the point "
-    "layout for non-cubic shapes.  NOT decided: index-map inversion arithmetic, weights summing to "
+    "layout for non-cubic shapes; the forward index map uses the row-major strides and the inverse map "
+    "divides by the same table (symbolic sequences per dimensionality); both exits of the cube-file "
+    "reader construct the grid from the same value graph.  NOT decided: weights summing to "
     "the volume, nearest point, molecule margin, cube round trip, spline reproduction (numerical).")
 RULE = "one instance per third-axis construct in the 2-D-capable functions; one per weight-scheme key"
 
